@@ -78,6 +78,7 @@ type State struct {
 	facts  map[Sym]Fact
 	must   EffSet
 	may    EffSet
+	stale  EffSet // success facts established before the handle lock was last released (and not re-established since)
 	lk     LockState
 	iter   EffSet // effects since the last loop-iteration mark (ITER queries)
 	lenpos map[vkey]tri // is len(param) > 0 ? (correlates loops over the same slice)
@@ -220,7 +221,7 @@ func (st *State) depth() int32 { return int32(len(st.frames) - 1) }
 func (st *State) top() *Frame  { return &st.frames[len(st.frames)-1] }
 
 func (st *State) clone() *State {
-	n := &State{must: st.must, may: st.may, lk: st.lk, iter: st.iter, steps: st.steps, mask: st.mask, trackIter: st.trackIter, iterDepth: st.iterDepth, User: st.User}
+	n := &State{must: st.must, may: st.may, stale: st.stale, lk: st.lk, iter: st.iter, steps: st.steps, mask: st.mask, trackIter: st.trackIter, iterDepth: st.iterDepth, User: st.User}
 	n.frames = make([]Frame, len(st.frames))
 	copy(n.frames, st.frames)
 	for i := range n.frames {
@@ -284,6 +285,7 @@ func (st *State) add(e Eff) {
 	if !st.mask.Has(e) {
 		return
 	}
+	st.stale = st.stale.Minus(effs(e))
 	st.must = st.must.With(e)
 	st.may = st.may.With(e)
 	if st.trackIter {
@@ -295,6 +297,7 @@ func (st *State) addSet(s EffSet) {
 	s = s.Inter(st.mask)
 	st.must = st.must.Union(s)
 	st.may = st.may.Union(s)
+	st.stale = st.stale.Minus(s)
 	if st.trackIter {
 		st.iter = st.iter.Union(s)
 	}
@@ -597,7 +600,7 @@ func (x *Explorer) hash(st *State) uint64 {
 		return 0
 	}
 	buf = putInt(buf, -4, int(st.User), st.iterDepth)
-	buf = putInt(buf, -2, int(st.must[0]), int(st.must[1]), int(st.may[0]), int(st.may[1]), int(st.iter[0]), int(st.iter[1]),
+	buf = putInt(buf, -2, int(st.must[0]), int(st.must[1]), int(st.may[0]), int(st.may[1]), int(st.iter[0]), int(st.iter[1]), int(st.stale[0]), int(st.stale[1]),
 		int(lk.H), int(lk.HDepth), int(lk.S), int(lk.M), b2i(lk.SW), b2i(lk.MW), int(lk.T),
 		int(lk.Si[0]), int(lk.Si[1]), int(lk.Si[2]), int(lk.Mi[0]), int(lk.Mi[1]), int(lk.Mi[2]))
 	type ent struct {
@@ -911,6 +914,17 @@ func (x *Explorer) refine(st *State, cond ssa.Value, truth bool) bool {
 		}
 		if c.Op == token.EQL || c.Op == token.NEQ {
 			eq := (c.Op == token.EQL) == truth // operands are equal
+			// `o.UUID() != ""` established: the object carries an identifier
+			if !eq {
+				for i, a := range []ssa.Value{c.X, c.Y} {
+					b := []ssa.Value{c.Y, c.X}[i]
+					if call, ok := a.(*ssa.Call); ok && call.Call.IsInvoke() && call.Call.Method.Name() == "UUID" && named(call.Call.Value.Type()) == x.P.A.Object {
+						if s, ok := constString(b); ok && s == "" {
+							x.emit(st, &Event{Kind: EvEffect, Eff: ECallInit, Instr: c, Tags: x.tagsOf(st, call.Call.Value)})
+						}
+					}
+				}
+			}
 			for i, a := range []ssa.Value{c.X, c.Y} {
 				b := []ssa.Value{c.Y, c.X}[i]
 				fa, fb := st.factOf(a), st.factOf(b)
